@@ -91,7 +91,9 @@ def build_model(model, outmeta, ir_version=9):
     from onnx import helper as h
 
     ins = [h.make_tensor_value_info(i["name"], _tp()[i["dt"]], decl_dims(i["ds"])) for i in model["ins"]]
-    outs = [h.make_tensor_value_info(o, _tp()[mt["dt"]], [None] * int(mt["rank"])) for o, mt in zip(model["outs"], outmeta)]
+    byname = {i["name"]: i for i in model["ins"]}
+    outs = [h.make_tensor_value_info(o, _tp()[byname[o]["dt"]], decl_dims(byname[o]["ds"])) if o in byname
+            else h.make_tensor_value_info(o, _tp()[mt["dt"]], [None] * int(mt["rank"])) for o, mt in zip(model["outs"], outmeta)]
     g = _graph(model, "main", ins, outs)
     for i in model["ins"]:
         if i["kind"] == "ovr":
